@@ -3,3 +3,5 @@ class VersionConversion:
   def _to_gfa1_a(self): return self.to_list()
   def _to_gfa2_a(self): return self.to_list()
 
+  def to_gfa1_s(self): return str(self)
+  def to_gfa2_s(self): return str(self)
